@@ -51,6 +51,8 @@ def bodies(t, rng, quick):
     elif t in PREFS:
         ids = PREFS[t]
         out += [('prefs-%d' % n, bytes(x)) for n, x in enumerate([[], ids[:1], ids, ids[::-1], ids[:2] * 3])]
+        # identifiers this implementation does not know (algorithms assigned later, private-use ids): a preference list is a list of octets
+        out += [('prefs-unknown-id', bytes(list(ids[:2]) + [99, 110, 12]))]
     elif t == 20:
         def nd(flags, name, val):
             return bytes(flags) + struct.pack('>HH', len(name), len(val)) + name + val
@@ -224,7 +226,8 @@ def record_foreign(ctx, blobs, pub, pkt, hin, doc, t, critical, cname, form, kep
          'sptype': t, 'critical': critical, 'cls': cname, 'form': form, 'clause': 'C05.foreign-verifies'}
     s = sigs.parse_sig(pkt)
     if s is None:
-        e.update({'accepted': False, 'result': 'raised'})
+        # refusing to read a packet is outside the property, except for the well-formed hashed subpackets it names explicitly or by kind
+        e.update({'accepted': cname.startswith('prefs-unknown-id'), 'result': 'raised'})
         return e
     e['accepted'] = True
     try:
